@@ -3,6 +3,8 @@ package main
 // SMT sorts, type mapping and term helpers.
 
 import (
+	"crypto/sha1"
+	"encoding/hex"
 	"fmt"
 	"go/types"
 	"sort"
@@ -59,6 +61,7 @@ type SortReg struct {
 	typeIDs  map[string]int
 	strLits  map[string]string // literal -> const name
 	litOrder []string
+	declNames []string // sort name of decls[i]
 	resolve  func(name string) bool // registers the struct datatype called name, if a program type matches
 }
 
@@ -197,6 +200,7 @@ func (r *SortReg) structSort(t types.Type) string {
 		fl = append(fl, fmt.Sprintf("(%s_unit Bool)", name))
 		info.FSorts = nil
 	}
+	r.declNames = append(r.declNames, name)
 	r.decls = append(r.decls, fmt.Sprintf("(declare-datatypes ((%s 0)) (((mk_%s %s))))", name, name, strings.Join(fl, " ")))
 	return name
 }
@@ -206,7 +210,18 @@ func (r *SortReg) typeID(t types.Type) int {
 	if id, ok := r.typeIDs[k]; ok {
 		return id
 	}
-	id := len(r.typeIDs) + 1
+	// a number that depends on the type's name only (see strLit)
+	h := sha1.Sum([]byte(k))
+	id := int(uint32(h[0])<<16|uint32(h[1])<<8|uint32(h[2])) + 1
+	for clash := true; clash; {
+		clash = false
+		for _, v := range r.typeIDs {
+			if v == id {
+				clash = true
+				id++
+			}
+		}
+	}
 	r.typeIDs[k] = id
 	return id
 }
@@ -219,18 +234,39 @@ func (r *SortReg) strLit(s string) string {
 	if c, ok := r.strLits[s]; ok {
 		return c
 	}
-	c := fmt.Sprintf("lit%d", len(r.strLits))
+	// the name depends on the text only (not on how many literals the run has seen before): the query generated
+	// for one function must not change when unrelated code elsewhere in the repository gains or loses a literal
+	h := sha1.Sum([]byte(s))
+	c := "lit_" + hex.EncodeToString(h[:6])
+	for {
+		clash := false
+		for t, n := range r.strLits {
+			if n == c && t != s {
+				clash = true
+			}
+		}
+		if !clash {
+			break
+		}
+		c += "x"
+	}
 	r.strLits[s] = c
 	r.litOrder = append(r.litOrder, s)
 	return c
 }
 
-// litDecls declares string literal constants: pairwise distinct, with known length and bytes (for short ones).
-func (r *SortReg) litDecls() string {
+// litDecls declares the string literal constants that occur in the query text `used` (all of them if used == ""):
+// pairwise distinct, with known length and bytes (for short ones), in an order that depends on the names only.
+func (r *SortReg) litDecls(used string) string {
 	var b strings.Builder
 	var names []string
-	for _, s := range r.litOrder {
+	order := append([]string(nil), r.litOrder...)
+	sort.Slice(order, func(i, j int) bool { return r.strLits[order[i]] < r.strLits[order[j]] })
+	for _, s := range order {
 		c := r.strLits[s]
+		if used != "" && !strings.Contains(used, c) {
+			continue
+		}
 		names = append(names, c)
 		fmt.Fprintf(&b, "(declare-const %s Str) ; %q\n", c, s)
 		fmt.Fprintf(&b, "(assert (= (slen %s) %s))\n", c, bvLit(uint64(len(s)), 64))
@@ -435,4 +471,40 @@ func (r *SortReg) litText(name string) (string, bool) {
 		}
 	}
 	return "", false
+}
+
+
+// structDecls returns the datatype declarations of the struct sorts that the query text mentions (directly or through
+// another needed declaration), in registration order: what one function's query looks like must not depend on which
+// other types the run has met.
+func (r *SortReg) structDecls(used string) string {
+	need := make([]bool, len(r.decls))
+	text := used
+	for i := len(r.decls) - 1; i >= 0; i-- { // an outer struct is registered after the structs of its fields
+		n := r.declNames[i]
+		if strings.Contains(text, n+" ") || strings.Contains(text, n+")") {
+			need[i] = true
+			text += r.decls[i]
+		}
+	}
+	// a second pass for references from earlier to later declarations (mutually nested registrations)
+	for changed := true; changed; {
+		changed = false
+		for i := range r.decls {
+			n := r.declNames[i]
+			if !need[i] && (strings.Contains(text, n+" ") || strings.Contains(text, n+")")) {
+				need[i] = true
+				text += r.decls[i]
+				changed = true
+			}
+		}
+	}
+	var b strings.Builder
+	for i, d := range r.decls {
+		if need[i] {
+			b.WriteString(d)
+			b.WriteByte('\n')
+		}
+	}
+	return b.String()
 }
